@@ -154,7 +154,7 @@ PROPS = {
     },
     "C09": {
         "controls": ["BIT"],
-        "rules": [("RT-1", tab2.rt1), ("RT-2", tab2.rt2), ("TAB-6", tab2.tab6), ("FLW-6", flw2.flw6), ("BIT-2", bit.bit2), ("FLW-7", flw2.flw7), ("RT-3", r5.rt3), ("RT-4", r5.rt4), ("RT-5", r5.rt5), ("RT-6", r5.rt6), ("SYN-8", r5.syn8)],
+        "rules": [("RT-1", tab2.rt1), ("RT-2", tab2.rt2), ("TAB-6", tab2.tab6), ("FLW-6", flw2.flw6), ("BIT-2", bit.bit2), ("FLW-7", flw2.flw7), ("RT-3", r5.rt3), ("RT-4", r5.rt4), ("RT-5", r5.rt5), ("RT-6", r5.rt6), ("SYN-8", r5.syn8), ("TAB-13", r5.tab13)],
         "explanation": "Decides three necessary conditions of the text round trip, none of them the round trip itself. RT-1 writer/reader agreement of the suprasegmental notation: "
                        "Word::render_normal writes primary stress as the mark Word::setup reads as Primary, secondary likewise, opens every non-initial unstressed syllable with '.', "
                        "writes a segment equal to its predecessor as 'ː' (read back as a repetition of the last segment) and a non-zero tone as its decimal digits (parsed back into "
